@@ -1,8 +1,9 @@
 (* Extraction of the executable C03 model for the correspondence check.
    ExtrOcamlBasic only: Z / positive stay inductive; no Extract Constant of our own. *)
 From Coq Require Import Extraction ExtrOcamlBasic ZArith List.
-From Acme.C03 Require Import Model.
+From Acme.C03 Require Import Model Shared.
 Extraction Language OCaml.
 Extraction "extracted/c03_model.ml" decode_std decode_enum int_range calc_size calc_value
   enum_new enum_step enum_ok enum_size e_max e_min e_values mux_selector_size mux_size
-  f64_of_bits bits_of_f64 sext_if.
+  f64_of_bits bits_of_f64 sext_if
+  sh_new sstep se_size se_max h_a h_b.
